@@ -8,6 +8,11 @@
    No proofs here. *)
 From SC Require Import Base.Prelude.
 
+(* a string given by its bytes (the harness writes names outside printable ASCII this way: names
+   are opaque byte strings, "\t" and U+00A0 are names like any other) *)
+Definition bytes_str (l : list Z) : string :=
+  fold_right (fun b acc => String (Ascii.ascii_of_N (Z.to_N b)) acc) EmptyString l.
+
 Definition client := Z.          (* 0 = nil *)
 Definition nil_client : client := 0.
 
